@@ -19,6 +19,7 @@ package main
 
 import (
 	"context"
+	"errors"
 	"fmt"
 	"io"
 	"sort"
@@ -56,7 +57,13 @@ const (
 	// with context.DeadlineExceeded (a deadline that passes); "cancel" in the
 	// history then means that moment.
 	ctxDeadline
+	// ctxCause: the scanner's context is the child of a context made with
+	// context.WithCancelCause and cancelled with a reason of the caller's: Err()
+	// of a context stays context.Canceled, and so does the scanner's.
+	ctxCause
 )
+
+var callersReason = errors.New("c07: the caller's own reason for cancelling")
 
 type history struct {
 	Format   string // "pbf" or "xml"
@@ -163,6 +170,9 @@ func (h history) name() string {
 	}
 	if h.CtxKind == ctxDeadline {
 		d += " parent-deadline-exceeded"
+	}
+	if h.CtxKind == ctxCause {
+		d += " parent-cancelled-with-a-cause"
 	}
 	if h.SpawnAt > 0 {
 		d += fmt.Sprintf(" canceller-started-after-%d-scans", h.SpawnAt)
@@ -288,6 +298,11 @@ func scenario(h history, bound int) vexplore.Scenario {
 					parent := ctx
 					ctx, _ = vsched.WithCancel(parent)
 					cancel = func() { parent.(*vsched.Ctx).Cancel(context.DeadlineExceeded) }
+				}
+				if h.CtxKind == ctxCause {
+					parent, cancelCause := vsched.WithCancelCause(nil)
+					ctx, _ = vsched.WithCancel(parent)
+					cancel = func() { cancelCause(callersReason) }
 				}
 				if h.NilCtx {
 					ctx = nil
